@@ -66,6 +66,18 @@ Theorem c01_network_agreement : forall (c : Instance.config) (honest : nat -> bo
 Proof. exact RefineNet.network_agreement. Qed.
 Print Assumptions c01_network_agreement.
 
+(* the COMMIT lock on networks of the instance model: once a strong quorum has committed v0 in round r0, v0 is the only value that
+   can gather a strong PREPARE quorum in any later round and bottom can never gather a strong COMMIT quorum *)
+Theorem c01_network_commit_lock : forall (c : Instance.config) (honest : nat -> bool) (input : nat -> Instance.chain),
+  InstanceNoPanic.committee_wf c -> Instance.c_total c <= 65535 -> (forall k, honest k = true -> input k <> []) ->
+  3 * byz_power (Refine.power c) (Refine.committee c) honest < total (Refine.power c) (Refine.committee c) ->
+  forall acts r0 v0 r, RefineNet.all_ok c honest (RefineNet.net0 input) acts ->
+    SQ (Refine.power c) (Refine.committee c) honest (RefineNet.n_votes (RefineNet.nrun c (RefineNet.net0 input) acts)) r0 COMMIT (Some v0) -> (r0 <= r)%nat ->
+    (forall x, SQ (Refine.power c) (Refine.committee c) honest (RefineNet.n_votes (RefineNet.nrun c (RefineNet.net0 input) acts)) r PREPARE x -> x = Some v0) /\
+    ~ SQ (Refine.power c) (Refine.committee c) honest (RefineNet.n_votes (RefineNet.nrun c (RefineNet.net0 input) acts)) r COMMIT None.
+Proof. exact RefineNet.network_commit_lock. Qed.
+Print Assumptions c01_network_commit_lock.
+
 (* the executable schedule checker (used for the example below and for replaying real multi-node runs) is sound *)
 Theorem c01_schedule_checker_sound : forall (c : Instance.config) (honest : nat -> bool) (input : nat -> Instance.chain) acts n,
   RefineRun.all_okb c honest n acts = true -> RefineNet.all_ok c honest n acts.
